@@ -196,12 +196,13 @@ def run_scenario(spec: dict) -> dict:
     def logged_pause():
         S.mark("clock_pause")
         orig_pause()
-        timeline.append(["pause", sched.now, len(sched.trace)])
+        timeline.append(["pause", sched.now, len(sched.trace), tc.time()])
 
     def logged_resume():
         S.mark("clock_resume")
+        before = tc.time()
         orig_resume()
-        timeline.append(["resume", sched.now, len(sched.trace)])
+        timeline.append(["resume", sched.now, len(sched.trace), before])
 
     def logged_scale(k):
         S.mark("clock_scale", k)
@@ -232,6 +233,7 @@ def run_scenario(spec: dict) -> dict:
         k = counts.get("save", 0) + 1
         counts["save"] = k
         S.mark("save_b")
+        timeline.append(["save_b", sched.now, len(sched.trace), tc.time()])
         if ("save", k) in faults:
             S.mark("save_raise")
             raise Injected(f"save#{k}")
@@ -249,6 +251,7 @@ def run_scenario(spec: dict) -> dict:
                     "marker_file": (Path(p) / "trainers" / "t" / "previous_training_time").read_text()}
         except Exception as e:  # noqa: BLE001
             info = {"readback_error": f"{type(e).__name__}: {e}"}
+        timeline.append(["save_e", sched.now, len(sched.trace), tc.time()])
         S.mark("save_e", Path(p).name, tc.is_paused(), info)
         return p
 
